@@ -1572,6 +1572,11 @@ class Analyzer:
                     if it is not None and g.arg_count >= 2 and ty_range(g.locals[g.arg_count]["ty"]) is not None:
                         cargs[-1] = it
                     self.call_local(g.path, cargs, self._closure_env(f, st, ap["local"]) or None)
+                    if record:
+                        # for the fold-accumulator idiom of the panic-freedom engine: how often the closure runs at most
+                        rem = self.sub_of_operand(st, t["args"][0], ("#rem",)) if t["args"] else None
+                        prev = self.obs.get(("closure-runs", g.path, None))
+                        self.obs[("closure-runs", g.path, None)] = (prev or []) + [(f.path, b, rem, list(argiv))]
         else:
             effects = []
         if t["target"] is None:
